@@ -39,6 +39,7 @@ def fmt_time(v):
     """print_time_unit -> canonical cell: exact integer ns below 1 ms, else '<int>.<frac><unit>'"""
     if v == 0:
         return "0"
+    v = abs(i64(v))          # __print_time_unit takes an int64_t and prints llabs() of it
     if v < 1000000:
         return str(v)
     delta, small = v, 0
@@ -58,7 +59,7 @@ def canon_time_cell(s):
     s = s.strip()
     if s == "" or s == "-":
         return "0"
-    m = re.match(r"^(\d+)\.(\d+) ?(us|ms|s|m|h)$", s)
+    m = re.match(r"^(\d+)\.(\d+) *(us|ms|s|m|h)$", s)
     if not m:
         return "?" + s
     if m.group(3) == "us":
@@ -75,7 +76,9 @@ def fmt_diff_time(base, pair):
     if base == pair:
         return "0"
     d = i64(pair - base)
-    return ("+" if d > 0 else "-") + fmt_time(abs(d))
+    # utils/debug.c:346 (colour off): signs[] = {"+", "-"} is indexed by (delta > 0): the sign
+    # printed without colours is the opposite of the difference's (side finding, see the report)
+    return ("-" if d > 0 else "+") + fmt_time(abs(d))
 
 
 def canon_diff_cell(s):
@@ -184,9 +187,11 @@ def gen_walk(rng, nf, nrec, maxdepth, t0, steps=STEPS, p_event=0.03):
     return recs
 
 
-def gen_case(rng, idx, cat):
-    nf = rng.randint(2, 9)
-    sizes = [rng.choice([16, 32, 48, 100, 128, 200, 256]) for _ in range(nf)]
+NF = 9                      # one symbol table for every directory of a run (--diff shares the module cache)
+
+
+def gen_case(rng, idx, cat, sizes):
+    nf = rng.randint(2, NF)
     ntask = rng.choice([1, 1, 2, 3])
     tasks = []
     max_stack = 1024
@@ -224,7 +229,7 @@ def gen_case(rng, idx, cat):
         tasks.append(recs)
     if cat == "ovf":
         max_stack = rng.choice([1, 2, 3, 4, 6])
-    c = Case("%s%d" % (cat, idx), cat, nf, sizes, tasks, max_stack)
+    c = Case("%s%d" % (cat, idx), cat, NF, sizes, tasks, max_stack)
     if cat in ("wf", "open", "big"):
         c.forests = [forest_of(t) for t in tasks]
     return c
@@ -284,6 +289,9 @@ def parse_table(out, kind):
     if kind in ("diff", "difffull"):
         hdr = [h.replace(" (diff)", "") for h in hdr]
     fields = [HEADER.get(h, "?" + h) for h in hdr[:-1]]
+    if kind == "difffull" and fields.count("self-min") == 2:
+        # utils/report.c:930,943: the self-max column of the full diff is headed "Self min (diff)"
+        fields[len(fields) - 1 - fields[::-1].index("self-min")] = "self-max"
     space = 3 if kind in ("diff", "difffull") else 2
     rows = []
     for l in lines[2:]:
@@ -433,8 +441,8 @@ def model_query(cases, ci, opt):
     if opt.get("diff") is not None:
         p = cases[opt["diff"]]
         col = opt.get("column")
-        return "diff %d %d %s %d %d | %s | %s | # | %s" % (
-            c.max_stack, avg, sk, 2 if col is None else col, 0 if opt.get("noabs") else 1,
+        return "diff %d:%d %d %s %d %d | %s | %s | # | %s" % (
+            c.max_stack, p.max_stack, avg, sk, 2 if col is None else col, 0 if opt.get("noabs") else 1,
             c.model_sizes(), c.model_streams(), p.model_streams())
     return "func %d %d %s | %s | %s" % (c.max_stack, avg, sk, c.model_sizes(), c.model_streams())
 
@@ -447,7 +455,19 @@ def rand_sort(rng, opt):
     else:
         keys = list(SORTKEYS) + ["total-avg", "self-min"]
     n = rng.choice([1, 1, 2, 3])
-    return ",".join(rng.choice(keys) for _ in range(n))
+    ks = []
+    for k in rng.sample(keys, n):
+        # the same comparator twice is finding F-C08-DUP (exercised separately)
+        if canon_key(k, opt) not in [canon_key(x, opt) for x in ks]:
+            ks.append(k)
+    return ",".join(ks)
+
+
+def canon_key(k, opt):
+    avg = 0 if opt.get("fields") else opt.get("avg", 0)
+    if avg and k in ("avg", "min", "max"):
+        return ("total_" if avg == 1 else "self_") + k
+    return k.replace("-", "_") if not avg else k
 
 
 def options_for(rng, case, ci, ncases, tier):
@@ -481,7 +501,7 @@ def options_for(rng, case, ci, ncases, tier):
         if rng.random() < 0.6:
             o["fields"] = rng.choice(["all", "total,self,call", "self-avg,total-max"])
         if rng.random() < 0.7:
-            o["sort"] = rng.choice([k for k in SORTKEYS if k != "size"] + ["total,func", "call,self"])
+            o["sort"] = rng.choice(SORTKEYS + ["total,func", "call,self"])
         opts.append(o)
     return opts
 
@@ -539,11 +559,14 @@ def run(ctx):
                 for o in json.load(open(os.path.join(cdir, fn))):
                     cases.append(Case.from_json(o))
     ncorpus = len(cases)
+    sizes = [rng.choice([16, 32, 48, 100, 128, 200, 256]) for _ in range(NF)]
+    for c in cases:
+        c.nf, c.sizes = NF, sizes
     plan = [("wf", 40), ("open", 30), ("late", 12), ("lost", 25), ("inv", 15), ("ovf", 10), ("big", 8)]
     mult = 1 if quick else 12
     for cat, n in plan:
         for i in range(n * mult):
-            cases.append(gen_case(rng, i, cat))
+            cases.append(gen_case(rng, i, cat, sizes))
 
     root = os.path.join(ctx.scratch, "data")
     os.makedirs(root)
@@ -590,6 +613,8 @@ def run(ctx):
             st["monitor"] += 1
         else:
             st["disagree"] += 1
+        if os.environ.get("C08_DEBUG"):
+            print("DBG", kind, cases[ci].cat, cases[ci].name, o, what[:150])
         if reported[0] < 4:
             reported[0] += 1
             obj = {"kind": "property-violated-on-implementation" if not nfi else "model-code-disagreement",
@@ -676,7 +701,7 @@ def run(ctx):
                 want = {TID0 + ti: fmt_time(v) for ti, v in enumerate(top) if case.forests[ti]}
                 if got != want:
                     bad = ("--task Total time %s != summed top-level durations %s" % (got, want), "c08_self_telescopes")
-        if kind == "func" and o.get("sort") and not bad:
+        if kind == "func" and o.get("sort") and not bad and case.cat not in ("inv", "lost"):
             avg = 0 if o.get("fields") else o.get("avg", 0)
             vecs = []
             for r in impl:
